@@ -327,11 +327,16 @@ func c10ws(s string) string { return strings.Trim(s, " \t") }
 func c10Gen(t *rapid.T) c10Case {
 	o := gen.GenOpts{
 		Boundaries: true,
-		Encodings:  []string{"quoted-printable", "base64", "8bit", "7bit"}, MaxParts: 3, MaxEmbeds: 2, MaxAttach: 3,
+		Encodings:  []string{"quoted-printable", "base64", "8bit", "7bit"}, MaxParts: 3, MaxEmbeds: 2, MaxAttach: 3, AllowNoBody: true,
 		PartEncs: []string{"", "", "quoted-printable", "base64", "8bit", "7bit"}, FileEncs: []string{"", "", "base64", "8bit", "7bit"},
 		TextOnlyQP: true, Sources: []string{"reader", "readseeker", "file", "buffer-reuse", "reader-drain"}, Vias: []string{"string", "writer"},
 	}
 	spec := gen.Program(t, o)
+	if len(spec.Parts) == 0 && len(spec.Embeds)+len(spec.Attachments) < 2 {
+		// a lone file without any body is a single entity, not a multipart: the parser reads such a message
+		// as a body (outside its feature set); body-less messages are generated with two or more files
+		spec.Parts = append(spec.Parts, gen.PartSpec{CType: "text/plain", Content: []byte("body next to a lone file\r\n"), Via: "string"})
+	}
 	for i := range spec.Parts {
 		p := &spec.Parts[i]
 		p.Charset, p.Desc = "", ""
